@@ -1553,4 +1553,9 @@ pub mod verif_hooks {
     pub fn realdirpath(t: &Path) -> io::Result<PathBuf> {
         super::realdirpath(t).map(|p| p.into_owned())
     }
+
+    /// `Stamp::detect_override` on two stamp strings, for the correspondence check.
+    pub fn verif_detect_override(a: &str, b: &str) -> bool {
+        super::Stamp::detect_override(&super::Stamp::from(a.to_string()), &super::Stamp::from(b.to_string()))
+    }
 }
